@@ -166,6 +166,30 @@ def gen_resolve(loader, check, replay_on=True):
                     else:
                         check.ob("resolve_hybrid#seq_order: call / statement-expression value read AFTER execution", pi, pc, not first_is_tmp, replay=rp)
 
+    # postfix_expr callback: builds the hybrid for exactly the written operator on exactly the operand
+    HT = irkit.enum(loader, "Hybrid", "HybridType")
+    for tok, sym in (("INC_OP", "++"), ("DEC_OP", "--")):
+        check.instances_declared += 1
+
+        def setup_p(it):
+            t = tkit.mk_transformer(it)
+            v = irkit.mk_var(it, "v", (True, 32))
+            it.ctx.mark_pre(t)
+            return {"t": t, "v": v}
+        ex = explore(loader, setup_p, lambda it, st, tok=tok, sym=sym: it.call(tkit.method(it, st["t"], "postfix_expr"), [[st["v"], Token(tok, sym)]], {}))
+        check.absorb(ex, f"postfix_expr {sym}")
+        if ex.paths:
+            check.instances_generated += 1
+        for p in ex.paths:
+            inst = f"v{sym}"
+            check.ob("postfix_expr#total", inst, p.ctx.pc, p.outcome == "return", detail="" if p.outcome == "return" else f"raises {p.value!r}")
+            if p.outcome != "return":
+                continue
+            tmp = p.value
+            h = tmp.fields.get("hybrid_owner") if isinstance(tmp, Obj) else None
+            ok = isinstance(h, Obj) and h.cls is irkit.C(loader, "PostfixIncDec") and h.fields["op_type"] == HT(sym) and h.fields["ops"][0] is p.state["v"]
+            check.ob("postfix_expr#hybrid-is-the-written-operator-on-the-written-operand", inst, p.ctx.pc, bool(ok), detail=repr(h.fields.get("op_type") if isinstance(h, Obj) else h))
+
     # nested: a hybrid whose operand is itself pending (f(i++)): the operand's effect is sequenced first
     check.instances_declared += 1
 
